@@ -16,6 +16,7 @@ void cbor_set_allocs(_cbor_malloc_t, _cbor_realloc_t, _cbor_free_t);
 }
 
 uint64_t sa_fired[8] = {0};
+static const bool g_nofill = getenv("SIM_NOFILL") != nullptr;   // leave fresh memory undefined (valgrind must see uninitialised reads)
 uint64_t sa_fired_toolarge = 0;
 
 namespace {
@@ -101,7 +102,7 @@ unsigned char* backend_alloc(size_t n, int* arena_idx) {
     case BE_ARENA: {
       *arena_idx = S.cur_arena;
       unsigned char* p = (unsigned char*)S.arena[S.cur_arena].alloc(n);
-      if (p) { memset(p, 0xAA, n); memset(p + n, 0xEE, (((n + 15) & ~(size_t)15) ? ((n + 15) & ~(size_t)15) : 16) + 16 - n); }
+      if (p) { if (!g_nofill) memset(p, 0xAA, n); memset(p + n, 0xEE, (((n + 15) & ~(size_t)15) ? ((n + 15) & ~(size_t)15) : 16) + 16 - n); }
       return p;
     }
     case BE_TAG: {
@@ -109,13 +110,13 @@ unsigned char* backend_alloc(size_t n, int* arena_idx) {
       if (!raw) return nullptr;
       uint64_t hdr[4] = {TAG_MAGIC, (uint64_t)n, ~TAG_MAGIC, 0};
       memcpy(raw, hdr, TAG_HDR);
-      memset(raw + TAG_HDR, 0xAA, n);
+      if (!g_nofill) memset(raw + TAG_HDR, 0xAA, n);
       memset(raw + TAG_HDR + n, 0xC5, TAG_CANARY);
       return raw + TAG_HDR;
     }
     default: {
       unsigned char* p = (unsigned char*)malloc(n);
-      if (p) memset(p, 0xAA, n);
+      if (p && !g_nofill) memset(p, 0xAA, n);
       return p;
     }
   }
@@ -291,7 +292,7 @@ void* sim_realloc(void* ptr, size_t n) {
     // natural libc realloc (may or may not move)
     unsigned char* np = (unsigned char*)realloc(old.user, n);
     if (!np) { w.refused++; sa_fired_toolarge++; return nullptr; }
-    if (n > old.size) memset(np + old.size, 0xAA, n - old.size);
+    if (n > old.size && !g_nofill) memset(np + old.size, 0xAA, n - old.size);
     S.live.erase(old.user); S.live_bytes -= old.size; S.blocks[oid].live = false; S.t_live[old.task]--; S.t_xor[old.task] ^= mix64(old.local + 1);
     uint64_t nid = new_block(np, n, 1, -1);
     w.freed.push_back(oid); w.allocated.push_back(nid); w.moved.emplace_back(oid, nid);
